@@ -21,6 +21,7 @@ func runC17(c *Ctx, r *Report) {
 	c17Read(c, r)
 	c17Handle(c, r, "C17.R3")
 	c17Limiters(c, r, "C17.R5")
+	c09R7(c, r, "C17.R6") // throttling never loses bytes: a datagram read in batch-sized pieces (the virtual UDP connection's Read) is delivered completely, also when its length is a multiple of the batch
 }
 
 func c17Read(c *Ctx, r *Report) {
@@ -265,6 +266,7 @@ func c17Handle(c *Ctx, r *Report, rule string) {
 			}
 			sc := &Scenario{Name: name, Params: map[string]SV{"recv": symRef("h", false), "p0": symRef("cx", false), "p1": symRef("next", false)},
 				Heap: map[string]SV{"h.ReadBytesPerSecond": symInt(rate), "h.ReadBurstSize": symInt(burst), "h.Latency": symInt(lat), "h.totalLimiter": symRef("h.totalLimiter", false), "cx.Conn": symRef("rawconn", false)},
+				Inline: func(f *ssa.Function) bool { return f.Parent() == fn }, // deferred closures of Handle run when it returns
 			}
 			sc.Call = func(callee string, args []SV, ev *symEval, st *symState) (SV, bool) {
 				switch {
@@ -298,6 +300,12 @@ func c17Handle(c *Ctx, r *Report, rule string) {
 				installedBeforeNext := false
 				for _, e := range p.Trace {
 					if e.Kind == "store" && e.What == "cx.Conn" {
+						if nextCalled && installed != "" && e.Args[0] != installed {
+							// the handler chain continues after Handle returns (a later route, the wrapped listener):
+							// the connection must stay throttled
+							problems = append(problems, "after next.Handle the connection's Conn is set back to "+e.Args[0]+": whoever reads the connection after this handler returns (a later route, the wrapped listener's consumer) reads it unthrottled")
+							continue
+						}
 						installed = e.Args[0]
 					}
 					if e.Kind == "select" {
